@@ -75,6 +75,7 @@ func runC10(p *engine.Prog, r *engine.Report) {
 				continue
 			}
 			nUpd := 0
+			nNewPhi, nKeptPhi := 0, 0
 			for _, rr := range *mm.Referrers() {
 				mu, ok := rr.(*ssa.MapUpdate)
 				if !ok || mu.Map != ssa.Value(mm) {
@@ -112,6 +113,38 @@ func runC10(p *engine.Prog, r *engine.Report) {
 					if ok, _ := fi.Implies(mu.Block(), engine.Not(oldNil)); !ok {
 						probs = append(probs, "a possibly nil previous entry is kept")
 					}
+				case *ssa.Phi:
+					// the entry is chosen first (previous one or a fresh one) and stored once
+					for k, e := range v.Edges {
+						pred := v.Block().Preds[k]
+						switch ev := e.(type) {
+						case *ssa.Call:
+							if engine.CalleeObj(ev.Common()) != newStatus {
+								probs = append(probs, "a new entry is created by "+fi.T(ev).S)
+								break
+							}
+							nNewPhi++
+							if s, ok := loadOfField(ev.Call.Args[0], fTSeries); !ok || fi.T(s).S != rt {
+								probs = append(probs, "new entry's series estimate is "+fi.T(ev.Call.Args[0]).S+", not the assigned target's Series")
+							}
+							if s, ok := loadOfField(ev.Call.Args[1], fTTotal); !ok || fi.T(s).S != rt {
+								probs = append(probs, "new entry's total-series estimate is "+fi.T(ev.Call.Args[1]).S+", not the assigned target's TotalSeries")
+							}
+							if ok, have := fi.View(oldNil).ImpliesEdge(pred, v.Block(), oldNil); !ok {
+								probs = append(probs, "a new entry replaces an existing one (accumulated statistics and health would be lost): "+strings.Join(nonStructural(have), " ∧ "))
+							}
+						case *ssa.Lookup:
+							nKeptPhi++
+							if fi.T(ev).S != old {
+								probs = append(probs, "a kept entry is taken from "+fi.T(ev).S+", not from the previous status of the same hash")
+							}
+							if ok, _ := fi.View(oldNil).ImpliesEdge(pred, v.Block(), engine.Not(oldNil)); !ok {
+								probs = append(probs, "a possibly nil previous entry is kept")
+							}
+						default:
+							probs = append(probs, "a status entry can be "+fi.T(e).S)
+						}
+					}
 				default:
 					probs = append(probs, "a status entry is set to "+fi.T(mu.Value).S)
 				}
@@ -120,7 +153,7 @@ func runC10(p *engine.Prog, r *engine.Report) {
 				probs = append(probs, "the new status map is never filled")
 			}
 			{
-				nNew, nKept := 0, 0
+				nNew, nKept := nNewPhi, nKeptPhi
 				for _, rr := range *mm.Referrers() {
 					if mu, ok := rr.(*ssa.MapUpdate); ok && mu.Map == ssa.Value(mm) {
 						switch mu.Value.(type) {
@@ -163,13 +196,24 @@ func runC10(p *engine.Prog, r *engine.Report) {
 					probs2 = append(probs2, "the entry's state is set from "+fi.T(s2.Val).S)
 					continue
 				}
-				// entry must be newmap[req.Hash]
-				lk, ok := fa2.X.(*ssa.Lookup)
-				if !ok || lk.X != ssa.Value(mm) {
+				// entry must be newmap[req.Hash], or the value that is stored as newmap[req.Hash] in the same iteration
+				var keyV ssa.Value
+				if lk, ok := fa2.X.(*ssa.Lookup); ok && lk.X == ssa.Value(mm) {
+					keyV = lk.Index
+				} else {
+					for _, rr := range *mm.Referrers() {
+						if mu, ok := rr.(*ssa.MapUpdate); ok && mu.Map == ssa.Value(mm) && mu.Value == fa2.X {
+							if lp := loopOf(fi, s2.Block()); lp != nil && lp.blocks[mu.Block().Index] {
+								keyV = mu.Key
+							}
+						}
+					}
+				}
+				if keyV == nil {
 					probs2 = append(probs2, "the state is stored into "+fi.T(fa2.X).S+", not into the rebuilt map's entry")
 					continue
 				}
-				if rq, ok := loadOfField(lk.Index, fHash); !ok || fi.T(rq).S != fi.T(req).S {
+				if rq, ok := loadOfField(keyV, fHash); !ok || fi.T(rq).S != fi.T(req).S {
 					probs2 = append(probs2, "state of target "+fi.T(req).S+" is stored into the entry of another hash")
 				}
 				// on every iteration: dominates every latch of its loop
